@@ -24,8 +24,10 @@
                | structure DOT identifier LPAREN parameter_list RPAREN
     parameter_list : parameter | parameter COMMA parameter_list | <empty>     (so `f(a:1,)` is accepted)
     parameter  : identifier COLON expression
-  Domain restriction of this model: names (`identifier`, `variable_name`) are tokens of kind ID;
-  the grammar's keyword-as-identifier alternatives are not modelled.
+  Names: `variable_name` / `rel_id` (= `limited_identifier : ID | kw_as_identifier_1`) and `identifier`
+  (`limited_identifier | kw_as_identifier_2 | _3 | _4`) are modelled with their keyword alternatives: a name
+  in the tree is the TOKEN that was written (kind + lexeme; oal.py keeps the lexeme), `Kind.isVarName` /
+  `Kind.isIdent` are the two classes (tied to the kw_as_identifier productions by Props/C07 `name_classes`).
 -/
 namespace Pyx.Oal
 
@@ -60,7 +62,22 @@ def hk : List Tok → Option Kind
 @[simp] theorem hk_nil : hk [] = none := rfl
 @[simp] theorem hk_cons (tok : Tok) (ts : List Tok) : hk (tok :: ts) = some tok.kind := rfl
 
-/-! ### syntax tree (node classes of oal.py; the field order is the constructor's) -/
+/-- `limited_identifier : ID | kw_as_identifier_1` — what `variable_name` and `rel_id` accept -/
+def Kind.isVarName : Kind → Bool
+  | .ID | .ACROSS | .ANY | .ASSIGN | .ASSIGNER | .BREAK | .BY | .CLASS | .CONTINUE | .CONTROL | .CREATE | .CREATOR
+  | .DELETE | .EACH | .EVENT | .FOR | .FROM | .GENERATE | .IN | .INSTANCES | .INSTANCE | .MANY | .OBJECT | .ONE
+  | .RELATED | .RELATE | .SELECT | .STOP | .TO | .WHERE | .UNRELATE | .USING => true
+  | _ => false
+
+/-- `identifier : limited_identifier | kw_as_identifier_2 | kw_as_identifier_3 | kw_as_identifier_4` -/
+def Kind.isIdent : Kind → Bool
+  | .BRIDGE | .CARDINALITY | .EMPTY | .FALSE | .NOT | .NOT_EMPTY | .SEND | .TRANSFORM | .TRUE | .OF
+  | .PARAM | .RCVD_EVT | .SELECTED | .SELF
+  | .AND | .ELIF | .ELSE | .IF | .OR | .RETURN | .WHILE => true
+  | k => k.isVarName
+
+/-! ### syntax tree (node classes of oal.py; the field order is the constructor's).
+    A name field holds the token that was written; the oal.py node holds its lexeme. -/
 
 mutual
 inductive Expr where
@@ -73,25 +90,25 @@ inductive Expr where
   /-- `BooleanNode(value)` : the TRUE / FALSE keyword as spelled -/
   | bool (b : Bool) (v : String)
   /-- `EnumOrNamedConstantNode(namespace, name)` -/
-  | enumc (ns name : String)
+  | enumc (ns : String) (name : Tok)
   /-- `VariableAccessNode(variable_name)` -/
-  | var (n : String)
+  | var (n : Tok)
   /-- `SelfAccessNode()` -/
   | self
   /-- `SelectedAccessNode()` -/
   | selected
   /-- `ParamAccessNode(variable_name)` : `param.n` / `rcvd_evt.n` -/
-  | param (n : String)
+  | param (n : Tok)
   /-- `FieldAccessNode(handle, name)` -/
-  | field (h : Expr) (n : String)
+  | field (h : Expr) (n : Tok)
   /-- `IndexAccessNode(handle, expression)` -/
   | index (h : Expr) (i : Expr)
   /-- `FunctionInvocationNode(action_name, parameter_list)` : `::f(...)` -/
-  | fcall (name : String) (ps : Params)
+  | fcall (name : Tok) (ps : Params)
   /-- `ImplicitInvocationNode(namespace, action_name, parameter_list)` : `NS::f(...)` -/
-  | icall (ns name : String) (ps : Params)
+  | icall (ns : String) (name : Tok) (ps : Params)
   /-- `InstanceInvocationNode(handle, action_name, parameter_list)` : `x.op(...)` -/
-  | ocall (h : Expr) (name : String) (ps : Params)
+  | ocall (h : Expr) (name : Tok) (ps : Params)
   /-- `UnaryOperationNode(operator, operand)`; the operator token as lexed -/
   | un (op : Tok) (e : Expr)
   /-- `BinaryOperationNode(left, operator, right)` -/
@@ -99,7 +116,7 @@ inductive Expr where
 /-- `ParameterListNode` of `ParameterNode(name, expression)` -/
 inductive Params where
   | nil
-  | cons (name : String) (e : Expr) (rest : Params)
+  | cons (name : Tok) (e : Expr) (rest : Params)
 end
 
 instance : Inhabited Expr := ⟨.self⟩
@@ -128,9 +145,9 @@ def Kind.isStructural : Kind → Bool
 
 /-- tokens that start an operand -/
 def Kind.isAtomStart : Kind → Bool
-  | .NUMBER | .FRACTION | .STRING | .TRUE | .FALSE | .ID | .SELF | .SELECTED | .PARAM | .RCVD_EVT
+  | .NUMBER | .FRACTION | .STRING | .TRUE | .FALSE | .SELF | .SELECTED | .PARAM | .RCVD_EVT
   | .NAMESPACE | .DOUBLECOLON | .LPAREN => true
-  | _ => false
+  | k => k.isVarName
 
 /-- minimal level of the right operand: PLY reduces `e op e . op'` when `op'` is lower, or equal
     and `left`; errors when equal and `nonassoc`; shifts otherwise -/
@@ -164,14 +181,14 @@ mutual
 def parseParams (t : Tbl) : Nat → List Tok → Option (Params × List Tok)
   | 0, _ => none
   | f+1, nm :: col :: ts =>
-    if nm.kind = .ID ∧ col.kind = .COLON then
+    if nm.kind.isIdent = true ∧ col.kind = .COLON then
       match parseExpr t f 0 ts with
       | some (e, ts') =>
         if hk ts' = some .COMMA then
           match parseParams t f (ts'.drop 1) with
-          | some (ps, ts'') => some (.cons nm.lex e ps, ts'')
+          | some (ps, ts'') => some (.cons nm e ps, ts'')
           | none => none
-        else some (.cons nm.lex e .nil, ts')
+        else some (.cons nm e .nil, ts')
       | none => none
     else some (.nil, nm :: col :: ts)
   | _+1, ts => some (.nil, ts)
@@ -183,16 +200,16 @@ def parseSuffix (t : Tbl) : Nat → Expr → List Tok → Option (Expr × List T
     | .DOT =>
       match ts with
       | nm :: ts1 =>
-        if nm.kind = .ID then
+        if nm.kind.isIdent then
           if hk ts1 = some .LPAREN then
             -- instance_invocation : structure DOT identifier LPAREN parameter_list RPAREN
             if h.isStruct then
               match parseParams t f (ts1.drop 1) with
               | some (ps, ts2) =>
-                if hk ts2 = some .RPAREN then some (.ocall h nm.lex ps, ts2.drop 1) else none
+                if hk ts2 = some .RPAREN then some (.ocall h nm ps, ts2.drop 1) else none
               | none => none
             else none
-          else if h.isChain then parseSuffix t f (.field h nm.lex) ts1 else none
+          else if h.isChain then parseSuffix t f (.field h nm) ts1 else none
         else none
       | [] => none
     | .LSQBR =>
@@ -214,6 +231,7 @@ def parsePrefix (t : Tbl) : Nat → List Tok → Option (Expr × List Tok)
       match parseExpr t f t.ulevel ts with
       | some (e, ts') => some (.un tok e, ts')
       | none => none
+    else if tok.kind.isVarName then parseSuffix t f (.var tok) ts
     else
       match tok.kind with
       | .NUMBER => some (.int tok.lex, ts)
@@ -221,33 +239,32 @@ def parsePrefix (t : Tbl) : Nat → List Tok → Option (Expr × List Tok)
       | .STRING => some (.str tok.lex, ts)
       | .TRUE => some (.bool true tok.lex, ts)
       | .FALSE => some (.bool false tok.lex, ts)
-      | .ID => parseSuffix t f (.var tok.lex) ts
       | .SELF => parseSuffix t f .self ts
       | .SELECTED => parseSuffix t f .selected ts
       | .PARAM | .RCVD_EVT =>
         match ts with
         | d :: nm :: ts' =>
-          if d.kind = .DOT ∧ nm.kind = .ID then parseSuffix t f (.param nm.lex) ts' else none
+          if d.kind = .DOT ∧ nm.kind.isVarName = true then parseSuffix t f (.param nm) ts' else none
         | _ => none
       | .NAMESPACE =>
         match ts with
         | dc :: nm :: ts' =>
-          if dc.kind = .DOUBLECOLON ∧ nm.kind = .ID then
+          if dc.kind = .DOUBLECOLON ∧ nm.kind.isIdent = true then
             if hk ts' = some .LPAREN then
               match parseParams t f (ts'.drop 1) with
               | some (ps, ts2) =>
-                if hk ts2 = some .RPAREN then some (.icall tok.lex nm.lex ps, ts2.drop 1) else none
+                if hk ts2 = some .RPAREN then some (.icall tok.lex nm ps, ts2.drop 1) else none
               | none => none
-            else some (.enumc tok.lex nm.lex, ts')
+            else some (.enumc tok.lex nm, ts')
           else none
         | _ => none
       | .DOUBLECOLON =>
         match ts with
         | nm :: lp :: ts' =>
-          if nm.kind = .ID ∧ lp.kind = .LPAREN then
+          if nm.kind.isIdent = true ∧ lp.kind = .LPAREN then
             match parseParams t f ts' with
             | some (ps, ts2) =>
-              if hk ts2 = some .RPAREN then some (.fcall nm.lex ps, ts2.drop 1) else none
+              if hk ts2 = some .RPAREN then some (.fcall nm ps, ts2.drop 1) else none
             | none => none
           else none
         | _ => none
@@ -312,18 +329,18 @@ def renderRaw (t : Tbl) : Expr → List Tok
   | .real v => [tk .FRACTION v]
   | .str v => [tk .STRING v]
   | .bool b v => [tk (if b then .TRUE else .FALSE) v]
-  | .enumc ns n => [tk .NAMESPACE ns, tk .DOUBLECOLON "::", tk .ID n]
-  | .var n => [tk .ID n]
+  | .enumc ns n => [tk .NAMESPACE ns, tk .DOUBLECOLON "::", n]
+  | .var n => [n]
   | .self => [tk .SELF "self"]
   | .selected => [tk .SELECTED "selected"]
-  | .param n => [tk .PARAM "param", tk .DOT ".", tk .ID n]
-  | .field h n => renderRaw t h ++ [tk .DOT ".", tk .ID n]
+  | .param n => [tk .PARAM "param", tk .DOT ".", n]
+  | .field h n => renderRaw t h ++ [tk .DOT ".", n]
   | .index h i =>
     renderRaw t h ++ tk .LSQBR "[" :: (wrap (decide (i.level t < 0)) (renderRaw t i) ++ [tk .RSQBR "]"])
-  | .fcall n ps => tk .DOUBLECOLON "::" :: tk .ID n :: LP :: (renderParams t ps ++ [RP])
+  | .fcall n ps => tk .DOUBLECOLON "::" :: n :: LP :: (renderParams t ps ++ [RP])
   | .icall ns n ps =>
-    tk .NAMESPACE ns :: tk .DOUBLECOLON "::" :: tk .ID n :: LP :: (renderParams t ps ++ [RP])
-  | .ocall h n ps => renderRaw t h ++ tk .DOT "." :: tk .ID n :: LP :: (renderParams t ps ++ [RP])
+    tk .NAMESPACE ns :: tk .DOUBLECOLON "::" :: n :: LP :: (renderParams t ps ++ [RP])
+  | .ocall h n ps => renderRaw t h ++ tk .DOT "." :: n :: LP :: (renderParams t ps ++ [RP])
   | .un op e => op :: wrap (decide (e.level t < t.ulevel)) (renderRaw t e)
   | .bin l op r =>
     match t.bin op.kind with
@@ -333,9 +350,9 @@ def renderRaw (t : Tbl) : Expr → List Tok
     | none => []
 def renderParams (t : Tbl) : Params → List Tok
   | .nil => []
-  | .cons n e .nil => tk .ID n :: tk .COLON ":" :: wrap (decide (e.level t < 0)) (renderRaw t e)
+  | .cons n e .nil => n :: tk .COLON ":" :: wrap (decide (e.level t < 0)) (renderRaw t e)
   | .cons n e ps =>
-    tk .ID n :: tk .COLON ":" :: (wrap (decide (e.level t < 0)) (renderRaw t e) ++ tk .COMMA "," :: renderParams t ps)
+    n :: tk .COLON ":" :: (wrap (decide (e.level t < 0)) (renderRaw t e) ++ tk .COMMA "," :: renderParams t ps)
 end
 
 /-- `e` as an operand that must have level ≥ `need` -/
@@ -349,23 +366,23 @@ def renderFull : Expr → List Tok
   | .real v => [tk .FRACTION v]
   | .str v => [tk .STRING v]
   | .bool b v => [tk (if b then .TRUE else .FALSE) v]
-  | .enumc ns n => [tk .NAMESPACE ns, tk .DOUBLECOLON "::", tk .ID n]
-  | .var n => [tk .ID n]
+  | .enumc ns n => [tk .NAMESPACE ns, tk .DOUBLECOLON "::", n]
+  | .var n => [n]
   | .self => [tk .SELF "self"]
   | .selected => [tk .SELECTED "selected"]
-  | .param n => [tk .PARAM "param", tk .DOT ".", tk .ID n]
-  | .field h n => renderFull h ++ [tk .DOT ".", tk .ID n]
+  | .param n => [tk .PARAM "param", tk .DOT ".", n]
+  | .field h n => renderFull h ++ [tk .DOT ".", n]
   | .index h i => renderFull h ++ tk .LSQBR "[" :: (renderFull i ++ [tk .RSQBR "]"])
-  | .fcall n ps => tk .DOUBLECOLON "::" :: tk .ID n :: LP :: (renderFullParams ps ++ [RP])
+  | .fcall n ps => tk .DOUBLECOLON "::" :: n :: LP :: (renderFullParams ps ++ [RP])
   | .icall ns n ps =>
-    tk .NAMESPACE ns :: tk .DOUBLECOLON "::" :: tk .ID n :: LP :: (renderFullParams ps ++ [RP])
-  | .ocall h n ps => renderFull h ++ tk .DOT "." :: tk .ID n :: LP :: (renderFullParams ps ++ [RP])
+    tk .NAMESPACE ns :: tk .DOUBLECOLON "::" :: n :: LP :: (renderFullParams ps ++ [RP])
+  | .ocall h n ps => renderFull h ++ tk .DOT "." :: n :: LP :: (renderFullParams ps ++ [RP])
   | .un op e => LP :: op :: (renderFull e ++ [RP])
   | .bin l op r => LP :: (renderFull l ++ op :: (renderFull r ++ [RP]))
 def renderFullParams : Params → List Tok
   | .nil => []
-  | .cons n e .nil => tk .ID n :: tk .COLON ":" :: renderFull e
-  | .cons n e ps => tk .ID n :: tk .COLON ":" :: (renderFull e ++ tk .COMMA "," :: renderFullParams ps)
+  | .cons n e .nil => n :: tk .COLON ":" :: renderFull e
+  | .cons n e ps => n :: tk .COLON ":" :: (renderFull e ++ tk .COMMA "," :: renderFullParams ps)
 end
 
 /-! ### which trees are expressions of the language (under a table) -/
@@ -373,17 +390,20 @@ end
 mutual
 /-- operators are known to the table in their role; handles are what the grammar allows there -/
 def Expr.Ok (t : Tbl) : Expr → Prop
-  | .field h _ => h.isChain = true ∧ h.Ok t
+  | .enumc _ n => n.kind.isIdent = true
+  | .var n => n.kind.isVarName = true
+  | .param n => n.kind.isVarName = true
+  | .field h n => h.isChain = true ∧ h.Ok t ∧ n.kind.isIdent = true
   | .index h i => h.isIndexable = true ∧ h.Ok t ∧ i.Ok t
-  | .fcall _ ps => ps.Ok t
-  | .icall _ _ ps => ps.Ok t
-  | .ocall h _ ps => h.isStruct = true ∧ ps.Ok t
+  | .fcall n ps => n.kind.isIdent = true ∧ ps.Ok t
+  | .icall _ n ps => n.kind.isIdent = true ∧ ps.Ok t
+  | .ocall h n ps => h.isStruct = true ∧ h.Ok t ∧ n.kind.isIdent = true ∧ ps.Ok t
   | .un op e => t.un op.kind = true ∧ e.Ok t
   | .bin l op r => (t.bin op.kind).isSome = true ∧ l.Ok t ∧ r.Ok t
   | _ => True
 def Params.Ok (t : Tbl) : Params → Prop
   | .nil => True
-  | .cons _ e ps => e.Ok t ∧ ps.Ok t
+  | .cons n e ps => n.kind.isIdent = true ∧ e.Ok t ∧ ps.Ok t
 end
 
 /-! ### grammar productions as data (what the translator reads from the `p_*` functions) -/
@@ -605,8 +625,10 @@ def exprGrammar : List (String × List String × Option String × String) := [
 /-! ### re-spelling of keywords (used for C08: letter case of keywords does not matter to the parser)
 
   The parser looks at token KINDS only and copies lexemes into the tree.  `mapTok g` rewrites the lexeme of
-  every token by a function of its kind; `Expr.mapKw g` rewrites exactly the fields of a tree that hold the
-  lexeme of a keyword-kind token: the boolean literal value and the operator of unary / binary nodes. -/
+  every token by a function of its kind; `Expr.mapKw g` rewrites exactly the fields of a tree that hold a
+  token or the lexeme of a keyword-kind token: the boolean literal value, the operator of unary / binary nodes,
+  and the name tokens (for `g` that leaves non-keyword lexemes alone — `KwOnly` — a name is changed only when
+  it is a keyword used as a name; oal.py keeps such a name's spelling, identifiers being case-sensitive). -/
 
 /-- the token kinds whose lexeme is a keyword (any letter case), incl. the `end if|for|while` tokens -/
 def Kind.isKeyword : Kind → Bool
@@ -624,17 +646,20 @@ def mapTok (g : Kind → String → String) (tok : Tok) : Tok := ⟨tok.kind, g 
 mutual
 def Expr.mapKw (g : Kind → String → String) : Expr → Expr
   | .bool b v => .bool b (g (if b then .TRUE else .FALSE) v)
-  | .field h n => .field (h.mapKw g) n
+  | .enumc ns n => .enumc ns (mapTok g n)
+  | .var n => .var (mapTok g n)
+  | .param n => .param (mapTok g n)
+  | .field h n => .field (h.mapKw g) (mapTok g n)
   | .index h i => .index (h.mapKw g) (i.mapKw g)
-  | .fcall n ps => .fcall n (ps.mapKw g)
-  | .icall ns n ps => .icall ns n (ps.mapKw g)
-  | .ocall h n ps => .ocall (h.mapKw g) n (ps.mapKw g)
+  | .fcall n ps => .fcall (mapTok g n) (ps.mapKw g)
+  | .icall ns n ps => .icall ns (mapTok g n) (ps.mapKw g)
+  | .ocall h n ps => .ocall (h.mapKw g) (mapTok g n) (ps.mapKw g)
   | .un op e => .un (mapTok g op) (e.mapKw g)
   | .bin l op r => .bin (l.mapKw g) (mapTok g op) (r.mapKw g)
   | e => e
 def Params.mapKw (g : Kind → String → String) : Params → Params
   | .nil => .nil
-  | .cons n e ps => .cons n (e.mapKw g) (ps.mapKw g)
+  | .cons n e ps => .cons (mapTok g n) (e.mapKw g) (ps.mapKw g)
 end
 
 /-- ASCII lower case, character by character (`A`–`Z` only, as the keyword test of `t_ID` folds case) -/
